@@ -28,10 +28,17 @@ theorem inst (R : RSh env op key lc tm D σ τ mapped) :
     rw [R.top, Nat.one_mul, List.take_range'_of_length_ge (Nat.le_of_lt hlt)]
     exact R.kind_i hj
 
-/-! ## (2e) the returned node reaches the per-key input node -/
+/-! ## (2e) the returned node reaches the per-key input node (when the template uses it); the input node is new -/
 
-theorem below_input (R : RSh env op key lc tm D σ τ mapped) (hT : TemplOK env tm) :
+theorem below_input (R : RSh env op key lc tm D σ τ mapped) (hT : UsesInput tm) :
     ExpertH.Below τ mapped σ.nodes.size := inst_below hT R.inst
+
+/-- the new per-key input node has never been computed (whether or not the template uses its input) -/
+theorem input_new (R : RSh env op key lc tm D σ τ mapped) : ((V τ).nodeD σ.nodes.size).recomputedAt = -1 := by
+  refine (V_stamp_iff τ _).2 (Or.inr ?_)
+  have := R.pnode
+  simp only [nodeKey, Prod.mk.injEq] at this
+  exact this.2.2.2.2.2.1
 
 /-! ## the new nodes, classified -/
 
